@@ -814,14 +814,41 @@ func (self FunctionType) String() string {
 }
 func (self FunctionType) Span() errors.Span { return self.Range }
 func (self FunctionType) SetSpan(span errors.Span) Type {
-	return NewFunctionType(self.Params, span, self.ReturnType.SetSpan(span), span)
+	return NewFunctionType(locateParams(self.Params, span), span, self.ReturnType.SetSpan(span), span)
 }
 func (self FunctionType) SetSpanAdvanced(span errors.Span, paramsSpan errors.Span) Type {
 	var returnType Type
 	if self.ReturnType != nil {
 		returnType = self.ReturnType.SetSpan(span)
 	}
-	return NewFunctionType(self.Params, paramsSpan, returnType, span)
+	return NewFunctionType(locateParams(self.Params, paramsSpan), paramsSpan, returnType, span)
+}
+
+// Parameter types that carry no position at all (the types of builtin functions come from the host
+// without one) get the given span: a diagnostic about such a parameter must still name a location.
+func locateParams(params FunctionTypeParamKind, span errors.Span) FunctionTypeParamKind {
+	locate := func(typ Type) Type {
+		if typ != nil && typ.Span() == (errors.Span{}) {
+			return typ.SetSpan(span)
+		}
+		return typ
+	}
+	switch params := params.(type) {
+	case NormalFunctionTypeParamKindIdentifier:
+		located := make([]FunctionTypeParam, len(params.Params))
+		for idx, param := range params.Params {
+			param.Type = locate(param.Type)
+			located[idx] = param
+		}
+		return NormalFunctionTypeParamKindIdentifier{Params: located}
+	case VarArgsFunctionTypeParamKindIdentifier:
+		located := make([]Type, len(params.ParamTypes))
+		for idx, typ := range params.ParamTypes {
+			located[idx] = locate(typ)
+		}
+		return VarArgsFunctionTypeParamKindIdentifier{ParamTypes: located, RemainingType: locate(params.RemainingType)}
+	}
+	return params
 }
 func (self FunctionType) Fields(_ errors.Span) map[string]Type { return make(map[string]Type) }
 func (self FunctionType) IsPrimitive() bool                    { return self.Kind().IsPrimitive() }
